@@ -387,6 +387,12 @@ def run_case(case: dict) -> dict:
         warnings.simplefilter("ignore")
         path = os.path.join(tmp, "restart.json")
         sim = build_sim(case, path)
+        if case["seed"] % 3 == 1:
+            # the documented `write_kwargs` of the restart observer (pretty-printed files): how the file is laid out is the
+            # writer's business, what it SAYS — the order of the move table included — is the simulation's
+            from quansino.io.restart import RestartObserver
+
+            sim.default_restart = RestartObserver(sim, path, interval=1, mode="a", write_kwargs={"indent": 1})
         out["tree"] = tree_of(sim)
         texts: dict[int, str] = {}
         obs: dict[int, dict] = {}
